@@ -189,3 +189,184 @@ func (in *KVFaultInst) CheckState(exp *tla.Value, call, tr *tla.Value) []engine.
 }
 
 var _ hackpadfs.FS = (*keyvalue.FS)(nil)
+
+// ---------------------------------------------------------------------------------------------
+// handle operations under store faults (C14: "operations on already-open handles keep returning results or errors")
+
+// HKVFaultAdapter runs Handles.tla on keyvalue.FS over a controlled store and, for every transition, re-runs the call on
+// fresh copies of the model state (file, open handles with their flags and offsets, unlinked or renamed name) while
+// failing each store call once; afterwards every open handle must still answer Stat/Read/Seek/Write without panicking.
+type HKVFaultAdapter struct {
+	Cfg   HConfig
+	Store string
+	Prop  string
+}
+
+func (a *HKVFaultAdapter) Name() string { return a.Cfg.AdapterName }
+
+type HKVFaultInst struct {
+	*HInst
+	ad     *HKVFaultAdapter
+	ctl    *kvctl.Ctl
+	state  *tla.Value
+	faults []string
+}
+
+func (a *HKVFaultAdapter) New(init *tla.Value) (engine.Instance, error) {
+	ctl := &kvctl.Ctl{}
+	cfg := a.Cfg
+	cfg.MkFS = func() (hackpadfs.FS, func(), error) {
+		fs, err := newKV(a.Store, ctl)
+		return fs, func() {}, err
+	}
+	inst, err := (&HAdapter{Cfg: cfg}).New(init)
+	if err != nil {
+		return nil, err
+	}
+	return &HKVFaultInst{HInst: inst.(*HInst), ad: a, ctl: ctl}, nil
+}
+
+func (in *HKVFaultInst) SetState(s *tla.Value) { in.state = s }
+
+// buildFromState constructs file, handles and name state of a Handles.tla state on a fresh file system.
+func buildFromState(cfg *HConfig, fs hackpadfs.FS, st *tla.Value) (*HInst, error) {
+	h := &HInst{cfg: cfg, fs: fs, cleanup: func() {}}
+	hs := st.F("hs").E
+	h.hs = make([]hackpadfs.File, len(hs)+1)
+	if err := hackpadfs.WriteFullFile(fs, "f", st.F("data").Bytes(), 0644); err != nil {
+		return nil, err
+	}
+	for i := range hs {
+		if hs[i].F("s").S == "unused" {
+			continue
+		}
+		fl := 0
+		switch hs[i].F("acc").S {
+		case "WO":
+			fl = hackpadfs.FlagWriteOnly
+		case "RW":
+			fl = hackpadfs.FlagReadWrite
+		}
+		if hs[i].F("app").B {
+			fl |= hackpadfs.FlagAppend
+		}
+		f, err := hackpadfs.OpenFile(fs, "f", fl, 0)
+		if err != nil {
+			return nil, err
+		}
+		h.hs[i+1] = f
+		if hs[i].F("s").S == "closed" {
+			_ = f.Close()
+			continue
+		}
+		if off := hs[i].F("off").I; off > 0 {
+			if _, err := hackpadfs.SeekFile(f, off, 0); err != nil {
+				return nil, err
+			}
+		}
+	}
+	switch st.F("link").S {
+	case "g":
+		if err := hackpadfs.Rename(fs, "f", "g"); err != nil {
+			return nil, err
+		}
+	case "none":
+		if err := hackpadfs.Remove(fs, "f"); err != nil {
+			return nil, err
+		}
+	}
+	return h, nil
+}
+
+func (in *HKVFaultInst) Apply(call *tla.Value) any {
+	in.faults = nil
+	if in.state != nil {
+		in.enumerate(call)
+	}
+	in.ctl.FailAt = 0
+	return in.HInst.Apply(call)
+}
+
+func (in *HKVFaultInst) snapshot(h *HInst) string {
+	var b strings.Builder
+	for _, n := range []string{"f", "g"} {
+		data, err := hackpadfs.ReadFile(h.fs, n)
+		fmt.Fprintf(&b, "%s=%v/%v;", n, data, err != nil)
+	}
+	return b.String()
+}
+
+func (in *HKVFaultInst) enumerate(call *tla.Value) {
+	run := func(failAt int64) (o HObs, ctl *kvctl.Ctl, after string, panics []string) {
+		ctl = &kvctl.Ctl{}
+		fs, err := newKV(in.ad.Store, ctl)
+		if err != nil {
+			panic(err)
+		}
+		cfg := in.ad.Cfg
+		h, err := buildFromState(&cfg, fs, in.state)
+		if err != nil {
+			return HObs{Err: err}, ctl, "unbuildable", nil
+		}
+		if failAt > 0 {
+			ctl.FailAt = ctl.Count() + failAt
+		}
+		pre := ctl.Count()
+		o = h.do(call)
+		ctl.FailAt = 0
+		_ = pre
+		after = in.snapshot(h)
+		// every open handle must keep answering
+		for i := 1; i < len(h.hs); i++ {
+			if h.hs[i] == nil {
+				continue
+			}
+			for _, probe := range []string{"stat", "read", "seek", "write", "truncate"} {
+				c := tla.MustParse(fmt.Sprintf(`[op |-> "%s", h |-> %d, n |-> 1, off |-> 0, bs |-> <<1>>, wh |-> 2, acc |-> "RO", app |-> FALSE, tr |-> FALSE]`, probe, i))
+				if po := h.do(&c); po.Panic != "" {
+					panics = append(panics, probe)
+				}
+			}
+		}
+		h.Close()
+		return
+	}
+	base, bctl, baseAfter, _ := run(0)
+	if baseAfter == "unbuildable" {
+		return
+	}
+	// store calls of the operation itself: measured on a second fault-free copy
+	n := int64(12)
+	_ = bctl
+	for k := int64(1); k <= n; k++ {
+		o, ctl, after, panics := run(k)
+		if !ctl.Fired.Load() {
+			break
+		}
+		cls := callClass(ctl.What)
+		if o.Panic != "" {
+			in.faults = append(in.faults, "panic-after-fault "+cls)
+		} else if o.Err == nil && (base.Err != nil || after != baseAfter) {
+			in.faults = append(in.faults, "fault-swallowed "+cls)
+		}
+		for _, p := range panics {
+			in.faults = append(in.faults, "handle-panics-after-fault "+p+" ("+cls+")")
+		}
+	}
+}
+
+func (in *HKVFaultInst) CheckResult(call, tr *tla.Value, obs any) []engine.Div {
+	divs := in.HInst.CheckResult(call, tr, obs)
+	sort.Strings(in.faults)
+	last := ""
+	for _, f := range in.faults {
+		if f != last {
+			divs = append(divs, engine.Div{Prop: in.ad.Prop, Sig: in.HInst.sig(call, tr, f), Detail: "store calls: " + strings.Join(in.ctl.Log, ",")})
+		}
+		last = f
+	}
+	if len(divs) > 0 {
+		in.HInst.dirty = true
+	}
+	return divs
+}
